@@ -139,6 +139,16 @@ func (e *c11Env) genOp(r *verifh.Rand, step, total int) c11Op {
 	for tries := 0; tries < 50; tries++ {
 		x := r.Intn(100)
 		switch {
+		case x < 2:
+			// the relay host gains / loses a limited (relayed) connection to a peer
+			p := 1 + r.Intn(c.n)
+			if e.isLimited(e.ids[p]) {
+				if r.Chance(1, 3) {
+					return c11Op{11, []int64{int64(p), 2}}
+				}
+			} else {
+				return c11Op{10, []int64{int64(p), 2}}
+			}
 		case x < 12 || len(conn) < 2 && x < 60:
 			p, k := 1+r.Intn(c.n), r.Intn(4)/3
 			if cn := e.conns[p][k]; cn == nil || cn.IsClosed() {
@@ -252,14 +262,27 @@ func (e *c11Env) exec(op c11Op) []int64 {
 	var obs []int64
 	switch op.code {
 	case 10:
+		if a[1] == 2 {
+			e.setLimited(int(a[0]), true)
+			e.cover("op_open_limited")
+			break
+		}
 		if err := e.openConn(int(a[0]), int(a[1])); err != nil {
 			e.t.Fatalf("openConn: %v", err)
 		}
 		e.cover("op_open_conn")
 	case 11:
+		if a[1] == 2 {
+			e.setLimited(int(a[0]), false)
+			e.cover("op_close_limited")
+			break
+		}
 		if cn := e.conns[a[0]][a[1]]; cn != nil {
 			cn.Close()
 			e.conns[a[0]][a[1]] = nil
+			if e.isLimited(e.ids[a[0]]) && !e.connected(int(a[0])) {
+				e.cover("direct_closed_limited_remains")
+			}
 		}
 		e.cover("op_close_conn")
 	case 12:
